@@ -32,6 +32,19 @@ def verNodeLine (st : VerSt) (line : String) : VerSt × String :=
     | some logs =>
       let (n, _, e) := (st.get (nat! id)).storeLogs logs
       (st.set (nat! id) n, if e then "err" else "ok")
+  | "vstorefail" :: id :: toks =>
+    -- the store underneath rejects the batch: the model's own StoreLogs over a store that refuses (a closed one),
+    -- the store itself is put back afterwards
+    match toks.mapM parseLogTok with
+    | none => (st, "bad-op")
+    | some logs =>
+      let n0 := st.get (nat! id)
+      let (n, _, e) := ({ n0 with store := { n0.store with closed := true } }).storeLogs logs
+      (st.set (nat! id) { n with store := { n.store with closed := n0.store.closed } }, if e then "err" else "ok")
+  | ["vdelfail", id, mn, mx] =>
+    let n0 := st.get (nat! id)
+    let (n, e) := ({ n0 with store := { n0.store with closed := true } }).deleteRange (nat! mn) (nat! mx)
+    (st.set (nat! id) { n with store := { n.store with closed := n0.store.closed } }, if e then "err" else "ok")
   | ["vdel", id, mn, mx] =>
     let (n, e) := (st.get (nat! id)).deleteRange (nat! mn) (nat! mx)
     (st.set (nat! id) n, if e then "err" else "ok")
